@@ -186,7 +186,7 @@ m("C03-less-nonstrict", "C03", [(EDITS,
   "\treturn m.parts(i) <= m.parts(j)")], "non-strict Less: equal-depth mounts are reordered")
 m("C03-parts-noclean", "C03", [(EDITS,
   "strings.Count(filepath.Clean(m[i].Destination), string(os.PathSeparator))",
-  "strings.Count(m[i].Destination, string(os.PathSeparator))")], "depth counted on the uncleaned destination (trailing or doubled slashes)")
+  "strings.Count(filepath.ToSlash(m[i].Destination), string(os.PathSeparator))")], "depth counted on the uncleaned destination (trailing or doubled slashes)")
 m("C03-gid-from-uid", "C03", [(EDITS,
   "\t\t\tif gid := spec.Process.User.GID; gid > 0 {",
   "\t\t\tif gid := spec.Process.User.UID; gid > 0 {")], "gid default taken from the process uid")
